@@ -1,6 +1,7 @@
 #!/bin/bash
 # Build the simulation binaries for the CURRENT working tree of /repo into a content-addressed cache.
-# usage: build.sh <variant> [<variant> ...]   variant = N<max threads>R<retry num>, e.g. N4R10
+# usage: build.sh <variant> [<variant> ...]   variant = N<max threads>R<retry num>[H0], e.g. N4R10; H0 = built without
+#        CPP_UTILITY_HAS_SPINLOCK_HINT (what cmake selects when x86intrin.h is missing)
 # prints the path of each built binary on stdout.
 set -euo pipefail
 VERIF="$(cd "$(dirname "$0")/.." && pwd)"
@@ -28,6 +29,8 @@ build_variant() {
   local V="$1"
   local N="${V#N}"; N="${N%%R*}"
   local R="${V##*R}"
+  local HINT="-DCPP_UTILITY_HAS_SPINLOCK_HINT"
+  if [[ "$R" == *H0 ]]; then R="${R%H0}"; HINT=""; fi
   local OUT="$DIR/sim-$V"
   if [ -x "$OUT" ]; then echo "$OUT"; return 0; fi
   (
@@ -35,7 +38,7 @@ build_variant() {
     if [ -x "$OUT" ]; then exit 0; fi
     local O="$DIR/obj-$V"
     mkdir -p "$O"
-    local DEFS="-DDBGROUP_MAX_THREAD_NUM=$N -DCPP_UTILITY_SPINLOCK_RETRY_NUM=$R -DCPP_UTILITY_BACKOFF_TIME=10 -DCPP_UTILITY_HAS_SPINLOCK_HINT -DCPP_UTILITY_VERIF"
+    local DEFS="-DDBGROUP_MAX_THREAD_NUM=$N -DCPP_UTILITY_SPINLOCK_RETRY_NUM=$R -DCPP_UTILITY_BACKOFF_TIME=10 $HINT -DCPP_UTILITY_VERIF"
     local INC="-I$VERIF/dsim -I$VERIF/scenarios -I$REPO/include"
     local pids=()
     local fail=0
